@@ -7,6 +7,7 @@ CONSTANTS
   BlockSizes = {1, 2}
   Mults = {1}
   Mode = "bmw_safe"
+  StoredBlock = 0
   NoPruneWithHook = TRUE
 INVARIANT PrunedEqualsExhaustive
 PROPERTY Progress
